@@ -12,7 +12,7 @@ AMBIENT = {"file": SS, "pattern": r"rand::rng\(\)", "replacement": "crate::disse
 MUTEX = {"file": SS, "pattern": r"^use parking_lot::Mutex;$", "replacement": "#[cfg(not(kani))]\nuse parking_lot::Mutex;\n#[cfg(kani)]\nuse self::kani_samp::Mutex;", "count": 1}
 
 Q, T = ["quick", "thorough"], ["thorough"]
-CAP_Q = {"quick": 420, "thorough": 1200}
+CAP_Q = {"quick": 720, "thorough": 1500}
 CAP_T = {"quick": 900, "thorough": 1500}
 STAKES = "stakes symbolic integers 1..=8 per validator"
 RNG = "random source = tape of L arbitrary 64-bit words (every stream prefix of that length; streams that need more words are outside the bound)"
